@@ -230,7 +230,7 @@ type lockParty struct {
 	cnt     map[string]int64
 }
 
-func (r *Runner) lockDir() string { return filepath.Join(r.Root, "db") }
+func (r *Runner) lockDir() string { return r.dbDir() }
 
 func runLock(r *Runner) {
 	if err := r.begin(); err != nil {
@@ -588,6 +588,7 @@ func (r *Runner) lockPartyMain(p *lockParty, ops []Op, isPeer bool, peer *peerPr
 
 func genLock(c *Case, rng *vrt.Rand, tier string) func(r *Runner, i int) *Op {
 	c.Arm = "lock"
+	c.Slash = rng.Chance(0.1)
 	c.Cfg = concConfig(rng)
 	c.Cfg.IO = 0
 	c.Cfg.FileSize = 200
